@@ -77,8 +77,25 @@ def rule_rewrite_order(ctx: Ctx) -> None:
                 sides.append((st, s))
     if not sides:
         raise AnalysisError("group_one_qubit_gates: gate_list accumulation not found")
+    def _added(st):
+        """the expression joined onto the gate list by this statement (None for a single-element append)"""
+        if isinstance(st, ast.AugAssign):
+            return st.value
+        if isinstance(st, ast.Assign) and isinstance(st.value, ast.BinOp):
+            return st.value.right if norm(st.value.left) == GL else st.value.left
+        if isinstance(st, ast.Expr) and isinstance(st.value, ast.Call) and call_attr(st.value) == "extend" and st.value.args:
+            return st.value.args[0]
+        return None
     for st, s in sides:
-        if backward and s == 1:
+        chunk = _added(st)
+        cdir = order.iter_direction(chunk)[1] if chunk is not None and not isinstance(chunk, ast.List) else 1
+        if backward and s == 1 and cdir == -1:
+            ctx.fail("order.wrapper", m, st,
+                     f"group_one_qubit_gates joins `{short(chunk)}` onto the gate list: an existing wrapper's `operations` is already stored as a "
+                     f"matrix product (last applied gate first), exactly the order the backward walk collects, so reversing it swaps the gates of "
+                     f"a wrapper that is grouped a second time", func="CircuitDAG.group_one_qubit_gates",
+                     construct="group_one_qubit_gates: existing wrapper's gate list reversed when merged")
+        elif backward and s == 1:
             ctx.ok("order.wrapper", m, st, what="backward walk + append = matrix-product order")
         else:
             ctx.fail("order.wrapper", m, st,
@@ -105,6 +122,7 @@ def run(ctx: Ctx) -> None:
 
 
 KNOCKOUTS = [
+    Knockout("group-merge-reversed", DAG, sub_once("                        gate_list += op.operations\n", "                        gate_list += list(reversed(op.operations))\n"), "order.wrapper", "reversed when merged"),
     Knockout("export-node-order", "graphiq/circuit/circuit_dag.py", sub_once("        for op in self.sequence():\n            if isinstance(op, ops.InputOutputOperationBase):", "        for op in [self.dag.nodes[k]['op'] for k in self.dag.nodes]:\n            if isinstance(op, ops.InputOutputOperationBase):"), "order.topological", "node-creation order"),
 
     Knockout("D1-metric-no-copy", "graphiq/metrics.py", sub_nth("        c = circuit.copy()\n        c.unwrap_nodes()", "        c = circuit\n        circuit.unwrap_nodes()", 0),
